@@ -231,6 +231,8 @@ def numeral(it, val, base=10, minw=0, fill='0', upper=False, kind='str', vdesc=N
     else:
         sym = it.fresh('w')
         it.store.declare(sym, wlo, whi, info=f'width of numeral of {val if val is not None else vdesc}')
+        if val is not None:
+            it.store.__dict__.setdefault('width_of', {})[sym] = (val, base, minw)
         width = Lin.sym(sym)
     return SeqV(kind, (Num(val, base, minw, fill, width, upper, vdesc, (lo, hi)),))
 
